@@ -4,9 +4,10 @@ Unknown or malformed lines answer `bad-op` (never a default value).
 -/
 import DitModel.Drv.Basic
 import DitModel.Drv.Simplex
+import DitModel.Drv.Info
 open Dit Dit.Drv
 
-def handlers : List (String × (J → Option J)) := basicHandlers ++ simplexHandlers
+def handlers : List (String × (J → Option J)) := basicHandlers ++ simplexHandlers ++ infoHandlers
 
 def answer (line : String) : String :=
   let line := line.trimAscii.toString
